@@ -89,6 +89,56 @@ def native_dqn_replay(model):
     return dict(reproduced=False, note="native loss agrees with the published Double-DQN target on all done/timeout combinations")
 
 
+def native_dqn_grad_replay(entry):
+    """R1: gradient (dqn_loss_grad) / SGD update (train) of the real code with real MLPQPolicy networks vs the semi-gradient of the published loss
+    (targets held constant: jax.lax.stop_gradient around y, target network = the policy passed as target)."""
+    def replay(model):
+        import optax
+        from lerax.policy import MLPQPolicy
+        from lvc.generic import GenericEnv
+        E = GenericEnv(Discrete(3), observation_space=OBS)
+        pol = MLPQPolicy(E, width_size=8, depth=1, key=jax.random.key(0))
+        tgt = MLPQPolicy(E, width_size=8, depth=1, key=jax.random.key(1))
+        rng = np.random.RandomState(3)
+        B, gamma = 8, 0.9
+        rb = ReplayBuffer(B, OBS, Discrete(3), None)
+        rb = eqx.tree_at(lambda b: (b.observations, b.next_observations, b.actions, b.rewards, b.dones, b.timeouts), rb,
+                         (jnp.asarray(rng.randn(B, 2), f32), jnp.asarray(rng.randn(B, 2), f32), jnp.asarray(rng.randint(0, 3, B)), jnp.asarray(rng.randn(B), f32),
+                          jnp.asarray([0, 0, 1, 1, 0, 1, 1, 0], bool), jnp.asarray([0, 1, 0, 1, 0, 0, 1, 1], bool)))
+
+        def semi(p, t, g):
+            def loss(pp):
+                _, q = jax.vmap(pp.q_values)(rb.states, rb.observations)
+                qa = jnp.take_along_axis(q, rb.actions.astype(int)[:, None], axis=1)[:, 0]
+                _, qn = jax.vmap(p.q_values)(rb.next_states, rb.next_observations)       # constants: not the differentiated copy
+                _, qt = jax.vmap(t.q_values)(rb.next_states, rb.next_observations)
+                v = jnp.take_along_axis(qt, jnp.argmax(qn, -1)[:, None], axis=1)[:, 0]
+                y = jax.lax.stop_gradient(rb.rewards + g * (1.0 - (rb.dones & ~rb.timeouts).astype(float)) * v)
+                return jnp.mean(jnp.square(qa - y)) / 2
+            return eqx.filter_grad(loss)(p)
+
+        if entry == "dqn_loss_grad":
+            _, got = DQN.dqn_loss_grad(pol, rb, tgt, gamma)
+            exp = semi(pol, tgt, gamma)
+        else:
+            algo = DQN(num_envs=1, buffer_size=8, learning_starts=2, batch_size=4, gamma=gamma)
+            algo = eqx.tree_at(lambda a: a.optimizer, algo, optax.sgd(1.0))
+            ost = algo.optimizer.init(eqx.filter(pol, eqx.is_inexact_array))
+            with extract.patched((ReplayBuffer, "sample", lambda self, n, *, key: self)):
+                newp, _, _ = algo.train(pol, ost, rb, key=jax.random.key(0))
+            got = jax.tree.map(lambda a, b: a - b, eqx.filter(pol, eqx.is_inexact_array), eqx.filter(newp, eqx.is_inexact_array))
+            exp = semi(pol, pol, gamma)      # DQN.train: the target network is the online network, held constant
+        gl, el = jax.tree.leaves(eqx.filter(got, eqx.is_inexact_array)), jax.tree.leaves(eqx.filter(exp, eqx.is_inexact_array))
+        err = max(float(jnp.max(jnp.abs(a - b))) for a, b in zip(gl, el))
+        scale = max(float(jnp.max(jnp.abs(b))) for b in el)
+        if err > 1e-4 * (1 + scale):
+            return dict(reproduced=True, route="R1 (real MLPQPolicy networks, real autodiff; SGD(1.0) for train, ReplayBuffer.sample = identity)",
+                        inputs=dict(B=B, gamma=gamma, dones=np.asarray(rb.dones).tolist(), timeouts=np.asarray(rb.timeouts).tolist(), seed=3),
+                        observed=dict(max_abs_gradient_difference=err, semi_gradient_scale=scale))
+        return dict(reproduced=False, note="native gradient equals the semi-gradient of the published loss")
+    return replay
+
+
 def _dqn_setup(ctx):
     (B,) = symbolic_dims("B")
     pol = sym(ctx, "q", GenericQPolicy(Discrete(3), OBS, tag="q"))
@@ -144,7 +194,7 @@ def unit_dqn_grad(S):
         _force(grads)
         vj = _vjp_calls(ctx)
         names = sorted({c.name for c in vj})
-        S.fact(f"{entry}/only-online-network-differentiated", names == ["vjp:q.q_values"], function=F_DQNG,
+        S.fact(f"{entry}/only-online-network-differentiated", names == ["vjp:q.q_values"], function=F_DQNG, replay=native_dqn_grad_replay(entry),
                what="reverse-mode cotangents reach only the online network's q_values (never the target network's)", detail=names)
         b = z3.Int("b")
         Bz = ctx.dim(B)
@@ -154,7 +204,7 @@ def unit_dqn_grad(S):
             th, h, o = c.operands[0], c.operands[1], c.operands[2]
             goal = sand(*[ir.seq(th.at((k,)), pol.theta.at((k,))) for k in range(2)], ir.seq(h.at((b, 0)), batch.states.h.at((b, 0))),
                         *[ir.seq(o.at((b, k)), batch.observations.at((b, k))) for k in range(2)])
-            S.prove(f"{entry}/vjp#{n}-at-current-observation", ctx, goal, hyps=[b >= 0, b < Bz], function=F_DQNG,
+            S.prove(f"{entry}/vjp#{n}-at-current-observation", ctx, goal, hyps=[b >= 0, b < Bz], function=F_DQNG, replay=native_dqn_grad_replay(entry),
                     what="the differentiated call is Q_online(theta; s_b): targets (successor values, greedy selection) are constants for optimisation")
         if entry == "train":
             up = [c for c in ctx.calls if c.name == "OPT.update#"]
